@@ -86,8 +86,9 @@ partial def parseGTy : SExp → Option GTy
   | .list [.atom "nm", .atom p, .atom n, t] => do
     pure (.named (← p.toNat?) (← unesc n) (← parseGTy t))
   -- a named type with methods M1() M2() …: methods do not enter the identity of the type
-  | .list (.atom "nmm" :: .atom p :: .atom n :: t :: _ms) => do
-    pure (.named (← p.toNat?) (← unesc n) (← parseGTy t))
+  | .list (.atom "nmm" :: .atom p :: .atom n :: t :: ms) => do
+    if ms.isEmpty then pure (.named (← p.toNat?) (← unesc n) (← parseGTy t))
+    else pure (.namedM (← p.toNat?) (← unesc n) (← parseGTy t))
   | .list (.atom "if" :: ms) => do
     pure (.ifaceM (← (← atomsOf' ms).mapM unesc))
   | .list [.atom "p", t] => (parseGTy t).map .ptr
@@ -118,6 +119,7 @@ partial def showGTy : GTy → String
   | .basic n => basicAtom n
   | .named 1000 _ _ => "error"
   | .named p n u => s!"(nm,{p},{esc n},{showGTy u})"
+  | .namedM p n u => s!"(nm,{p},{esc n},{showGTy u})"
   | .ptr t => s!"(p,{showGTy t})"
   | .slice t => s!"(sl,{showGTy t})"
   | .chan t => s!"(ch,{showGTy t})"
@@ -142,6 +144,7 @@ def showTyps (ts : List GTy) : String := "[" ++ ",".intercalate (ts.map showGTy)
 pair is bound to two different underlying types (the terms would not be canonical) -/
 partial def namedBindings : GTy → List ((Nat × Name) × GTy)
   | .named p n u => ((p, n), u) :: namedBindings u
+  | .namedM p n u => ((p, n), u) :: namedBindings u
   | .ptr t | .slice t | .chan t | .chanR t | .chanS t | .array _ t | .struct t | .structT _ t => namedBindings t
   | .map k v => namedBindings k ++ namedBindings v
   | .fcons t r => namedBindings t ++ namedBindings r
